@@ -55,13 +55,13 @@ theorem adCostMono_eq (l r : ℚ) : KernelsMcCost.adCostMono l r = pixelCost .sa
 
 theorem sdCostBand3_eq (l r : ℚ) : KernelsMcCost.sdCostBand3 l r = pixelCost .ssd l r := by
   unfold KernelsMcCost.sdCostBand3 pixelCost
-  first | exact rpow_two _ | (simp only [rpow]; ring)
+  first | exact rpow_two _ | rfl | (simp only [rpow]; ring) | ring
 theorem sdCostBand2_eq (l r : ℚ) : KernelsMcCost.sdCostBand2 l r = pixelCost .ssd l r := by
   unfold KernelsMcCost.sdCostBand2 pixelCost
-  first | exact rpow_two _ | (simp only [rpow]; ring)
+  first | exact rpow_two _ | rfl | (simp only [rpow]; ring) | ring
 theorem sdCostMono_eq (l r : ℚ) : KernelsMcCost.sdCostMono l r = pixelCost .ssd l r := by
   unfold KernelsMcCost.sdCostMono pixelCost
-  first | exact rpow_two _ | (simp only [rpow]; ring)
+  first | exact rpow_two _ | rfl | (simp only [rpow]; ring) | ring
 
 /-- which array each operand is, branch by branch (resolved by the generator through the assignments of the function):
     the left operand is the left image on `point_p`, the right operand the right image on `point_q`; a band index, where
